@@ -280,17 +280,33 @@ def check_raising_fn(workdir, double):
     def boom(x):
         raise RuntimeError("user function fails")
 
-    before = bool(jax.config.jax_enable_x64)
-    try:
-        allclose(boom, p, [np.zeros((3,), np.float32)], enable_double_precision=double)
-    except Exception:
-        pass
-    after = bool(jax.config.jax_enable_x64)
-    if after != before:
-        jax.config.update("jax_enable_x64", before)
-        return [{"sig": {"kind": "x64_flag_changed", "when": "fn_raises"}, "case": {"kind": "raising", "double": double},
-                 "detail": f"jax_enable_x64 {before} -> {after} after allclose with a raising fn"}]
-    return []
+    out = []
+    corrupt = os.path.join(workdir, "corrupt.onnx")
+    with open(corrupt, "wb") as fh:
+        fh.write(b"not an onnx model")
+    scenarios = [
+        ("fn_raises", lambda: allclose(boom, p, [np.zeros((3,), np.float32)], enable_double_precision=double)),
+        ("missing_model_file", lambda: allclose(lambda x: jnp.tanh(x), os.path.join(workdir, "does_not_exist.onnx"), [np.zeros((3,), np.float32)], enable_double_precision=double)),
+        ("corrupt_model_file", lambda: allclose(lambda x: jnp.tanh(x), corrupt, [np.zeros((3,), np.float32)], enable_double_precision=double)),
+        ("wrong_rank_feed", lambda: allclose(lambda x: jnp.tanh(x), p, [np.zeros((2, 3), np.float32)], enable_double_precision=double)),
+        ("too_many_inputs", lambda: allclose(lambda x: jnp.tanh(x), p, [np.zeros((3,), np.float32), np.zeros((3,), np.float32)], enable_double_precision=double)),
+        ("shape_tuple_input", lambda: allclose(lambda x: jnp.tanh(x), p, [(3,)], enable_double_precision=double)),
+    ]
+    for global_x64 in (False, True):
+        for name, call in scenarios:
+            jax.config.update("jax_enable_x64", global_x64)
+            try:
+                try:
+                    call()
+                except Exception:
+                    pass
+                after = bool(jax.config.jax_enable_x64)
+            finally:
+                jax.config.update("jax_enable_x64", False)
+            if after != global_x64:
+                out.append({"sig": {"kind": "x64_flag_changed", "when": name}, "case": {"kind": "raising", "double": double},
+                            "detail": f"jax_enable_x64 {global_x64} -> {after} after allclose({name}, enable_double_precision={double})"})
+    return out
 
 
 def plan(tier, seed):
